@@ -8,11 +8,11 @@ assign to them or call methods on them, and the fields of the property's struct 
 a pure function of the arguments and of these fields; a new variable, writer or field is state the
 model does not know of. The digest-valued `shape:` entry covers everything the call graph
 (resolved by go/types) reaches from the functions declared in the property's anchor files: per
-function, method (with receiver kind), package variable and constant, its numeric literals, the
+function, method (with receiver kind), package variable and constant, its numeric literals, its comparison operators, the
 package variables it reads and its writes through parameters or the receiver (including in-place
 `sort.*`/`copy`/`append`). The entries behind the digest are in `shape_expected.txt` and in a
 comment of the generated file. -/
-def stateC16 : List (String × String) := [("globals:scale", ""), ("globalwrites:scale", ""), ("fields:scale.Linear", "Min:float64 Max:float64 Base:int Clamp:bool"), ("fields:scale.Log", "private:struct{} Min:float64 Max:float64 Base:int Clamp:bool"), ("fields:scale.QQ", "Src:Quantitative Dest:Quantitative"), ("shape:C16", "n=31 fnv64a=6b81f5fa8c3b91ef")]
+def stateC16 : List (String × String) := [("globals:scale", ""), ("globalwrites:scale", ""), ("fields:scale.Linear", "Min:float64 Max:float64 Base:int Clamp:bool"), ("fields:scale.Log", "private:struct{} Min:float64 Max:float64 Base:int Clamp:bool"), ("fields:scale.QQ", "Src:Quantitative Dest:Quantitative"), ("shape:C16", "n=31 fnv64a=23d605c5b273ae9d")]
 
 /-- the source has exactly the package-level variables, writers and struct fields the model accounts for -/
 theorem state_C16 : holdsAll stateC16 = true := by decide +kernel
